@@ -17,7 +17,8 @@
    attributes the minifier trims), for every source quoting and KeepQuotes; text decodes to the same
    words and no "<" is introduced. *)
 EXTENDS HtmlDom, Json
-CONSTANTS MaxLen, Pieces
+CONSTANTS MaxLen, Pieces,
+          Bugs     \* wrong-design switches (must violate): "amp-no-followcheck" = decode &amp; although what follows could start a reference
 VARIABLE ps
 Init == ps = <<>>
 Next == Len(ps) < MaxLen /\ \E p \in 1..Len(Pieces) : ps' = Append(ps, p)
@@ -71,7 +72,7 @@ RepAt(b, i, text) ==
         IF ~(j <= n /\ b[j] = 59 /\ 2 < j + 1 - i) THEN [r |-> <<-1>>, nx |-> i + 1]
         ELSE IF Len(r) = 1 /\ text /\ r[1] = 60
              THEN (IF SubSeq(b, i, j) = LtRef THEN [r |-> <<-1>>, nx |-> j + 1] ELSE [r |-> LtRef, nx |-> j + 1])
-        ELSE IF Len(r) = 1 /\ r[1] = 38 /\ j + 1 <= n /\ (IsAlnum(b[j + 1]) \/ b[j + 1] = 35)
+        ELSE IF Len(r) = 1 /\ r[1] = 38 /\ j + 1 <= n /\ (IsAlnum(b[j + 1]) \/ b[j + 1] = 35) /\ "amp-no-followcheck" \notin Bugs
              THEN [r |-> <<-1>>, nx |-> j + 2]
         ELSE [r |-> r, nx |-> j + 1]
   IN
@@ -194,5 +195,7 @@ TextOK ==
     LET v == CollapseRep(Raw, TRUE) IN
     /\ \A i \in 1..Len(v) : v[i] # 60
     /\ WsNorm(DecodeRefs(v, FALSE)) = WsNorm(DecodeRefs(Raw, FALSE))
+NoBugs == {}
+BugAmp == {"amp-no-followcheck"}
 Emit == PrintT("VAL " \o ToJson(Raw))
 =============================================================================
